@@ -126,6 +126,17 @@ def opEtagRt (args : List SExp) : Option OpResult := do
     pure ⟨impl, mustEqual "C16" "etag-roundtrip" s!"ok {hexBytes (rs.flatMap (fun r => runeBytes r.1))}"⟩
   | _ => none
 
+/-- `etag.hdr <tag> => ok <tag read back> <matches>`: the announced entity tag sent back in a conditional header names
+    the same tag (for a non-empty tag; the empty tag means "no resource") -/
+def opEtagHdr (args : List SExp) : Option OpResult := do
+  match args with
+  | [.list items] =>
+    let rs ← goRunes items
+    let bytes := hexBytes (rs.flatMap (fun r => runeBytes r.1))
+    let want := s!"ok {bytes} {if rs.isEmpty then "0" else "1"}"
+    pure ⟨want, mustEqual "C16" "etag-through-headers" want⟩
+  | _ => none
+
 def opHrefEnc (args : List SExp) : Option OpResult := do
   match args with
   | [p] =>
